@@ -1,4 +1,5 @@
 import SnootyVerif.Proofs.Man
+import SnootyVerif.Proofs.ManTotal
 
 /-!
 # C19 — Man page rendering keeps all text and never lets text become a troff request
@@ -77,6 +78,48 @@ theorem fonts_balanced (up : Char → Str) (t : ManNode) (st st' : St) (hi : Fon
   events_fonts up t st st' hi hr
 
 example : FontInv {} := by intro _; simp [fontsOf]
+
+/-- **Rendering is total.** For every page AST in which a list item only occurs below a list (`Ast.scoped`; the one
+structural precondition of the handler, `assert self.list_stack` - the parser creates `ListNodeItem`s only as children
+of a `ListNode`), every page name, section and `upper`: the tree builder has no raising path, the handler's list stack
+and formatting stack are never popped empty, every string-valued node is TEXT or PREFORMATTED - `render` returns. -/
+theorem render_total (up : Char → Str) (name sec : Str) (ast : Ast) (h : ast.scoped false = true) :
+    ∃ cs, render up name sec ast = .ok cs :=
+  render_total_scoped up name sec ast h
+
+example : Ast.scoped false (.pass [.sect [.heading [.text ['T']], .list true [.listItem [.paragraph [.strong [.text ['a']]],
+    .list false [.listItem [.code ['c']]]]], .target [.targetId [.text ['i']], .paragraph [.emphasis [.text ['d']]]]]]) = true := by
+  decide
+
+/-- the precondition is needed: a list item outside any list trips the handler's assertion (model and code agree) -/
+theorem render_unscoped_refuted :
+    render (fun c => [c]) ['x'] ['1'] (.pass [.listItem [.paragraph [.text ['a']]]]) = .error .assertionError := by rfl
+
+/-- **The tree walk below any node is total and stack-neutral**: from ANY handler state, walking a scoped subtree returns
+with the list stack and the formatting stack as they were. -/
+theorem subtree_walk_total (up : Char → Str) (t : ManNode) (inList : Bool) (st : St) (hs : t.scoped inList = true)
+    (hl : inList = true → st.lstack ≠ []) :
+    ∃ st', run up st t.events = .ok st' ∧ st'.lstack = st.lstack ∧ st'.fstack = st.fstack :=
+  events_ok up t inList st hs hl
+
+/-- **The escape loses nothing.** Reading the output of `troff_escape` back the way groff reads it (`\e` backslash,
+`\-` minus, `\(aq` apostrophe, `\'` acute, `\(ga` grave, `\&` nothing; any other escape is an error) gives exactly
+the original text, for every text - whatever characters, line breaks or leading dots it contains. -/
+theorem escape_roundtrip (s : Str) : unesc (troffEscape s) = some s := unesc_troffEscape s
+
+example : unesc (troffEscape "foo\n.bar a\\b 'q'\n'x -y `z´ \\&.".toList) = some "foo\n.bar a\\b 'q'\n'x -y `z´ \\&.".toList :=
+  escape_roundtrip _
+/-- the reader is not the identity and rejects escapes the renderer never writes -/
+example : unesc "a\\-b".toList = some "a-b".toList ∧ unesc "a\\fBb".toList = none := by
+  constructor <;> (simp [unesc]; try decide)
+
+/-- **All text of the page is recoverable, in order.** The text chunks of a rendered page, read back as groff reads
+them, are exactly the texts handed to `handle_text` during the walk, concatenated in walk order. -/
+theorem text_recovered (up : Char → Str) (name sec : Str) (ast : Ast) (cs : List Chunk)
+    (h : render up name sec ast = .ok cs) :
+    ∃ k, ast.toMan = .ok k ∧ unesc (textOf cs) = some (evTexts (eventsL k)).flatten := by
+  obtain ⟨k, hk, ht⟩ := render_text up name sec ast cs h
+  exact ⟨k, hk, by rw [ht]; exact unesc_flatMap_troffEscape _⟩
 
 /-- The escape is, character by character, the table of `troff_escape` plus the `\&` guard. -/
 theorem escape_is_charwise (s : Str) : troffEscape s = guardGo true (s.flatMap esc1) := troffEscape_eq s
